@@ -362,6 +362,7 @@ class World:
                         listing=k.get("listing", "sorted"), rng=random.Random(mix(record["seed"], "fs")),
                         buffer_size=k.get("bufsize", 8192))
         self.fs.fd_limit = k.get("fd_limit")
+        self.fs.sendfile_cap = k.get("sendfile_cap")
         self.store = Store()
         for r, size in sorted(k["res_sizes"].items()):
             self.store.put(r, size)
@@ -509,6 +510,10 @@ class World:
             simsync.reset_module_state(m)
 
     def _resources(self):
+        if self.knobs.get("default_resources") and all(k["scheme"] in ("https", "file") for k in self.keys):
+            # the caller passes no resources: the cache builds its default list (https:// and file://)
+            self.stats["probes"]["opened_with_default_resources"] = self.stats["probes"].get("opened_with_default_resources", 0) + 1
+            return None
         # the private store comes first and shares the sim:// prefix; it claims only sim://private/...
         return [self.private_resource, self.sim_resource, self.rr.RemoteResourceHTTPS(), self.rr.RemoteResourceLocal(),
                 self.chain_resource]
